@@ -235,6 +235,70 @@ pub fn run(ctx: &Ctx) -> Report {
         });
         rep.merge(r);
     }
+    // ---- commands pipelined behind commands that have no reply, on connections whose read buffer has
+    //      grown: an earlier command of 70 KB .. 1 MB, statements prepared and closed (the last open one
+    //      too), long data, and the next command always in the same read as the CLOSE / long data in
+    //      front of it - everything that has arrived is answered before the server waits again
+    let n = if ctx.miri { 1 } else { ctx.n(300, 8000) };
+    let r = par_cases(ctx, "C12", "behind-no-reply-commands", n, |rng, i, rep| {
+        let mut cmds = Vec::new();
+        let mut scripts = Vec::new();
+        if rng.chance(3, 4) {
+            let mut t = Vec::new();
+            let l = *rng.pick(&[70_000usize, 100_000, 300_000, 1_000_000]);
+            stream_fill(&mut t, rng.next(), 3, l, true);
+            cmds.push(Cmd::query(&t));
+            scripts.push(Script::Q(QProg::completed(1, 0)));
+        }
+        let nst = rng.range(1, 3) as u32;
+        for id in 1..=nst {
+            cmds.push(Cmd::prepare(b"p"));
+            scripts.push(Script::PrepOk { id, params: vec![simple_col("p", msql_srv::ColumnType::MYSQL_TYPE_BLOB)], cols: vec![] });
+        }
+        if rng.bool() {
+            cmds.push(Cmd::long_data(1, 0, b"chunk"));
+        }
+        // close them all, the last one included, each CLOSE directly followed by a command that has a reply
+        for id in 1..=nst {
+            cmds.push(Cmd::close(id));
+            match rng.below(3) {
+                0 => cmds.push(Cmd::ping()),
+                1 => {
+                    cmds.push(Cmd::query(b"behind the close"));
+                    scripts.push(Script::Q(QProg::completed(2, 2)));
+                }
+                _ => {
+                    cmds.push(Cmd::init_db(b"db"));
+                    scripts.push(Script::InitOk);
+                }
+            }
+        }
+        cmds.push(Cmd::ping());
+        let mut case = Case::new(cmds, scripts);
+        let (input, ends) = case.input();
+        case.sched = match i % 4 {
+            0 => Sched::all(),
+            1 => Sched { cuts: vec![], cycle: vec![1 << 20] },
+            // reads end exactly in front of every CLOSE, so each CLOSE and its successor share a read
+            2 => Sched { cuts: ends.iter().zip(case.cmds.iter().map(|c| c.kind).chain(std::iter::once(Kind::Ping))).filter(|(_, k)| *k == Kind::Close).map(|(e, _)| e.0).collect(), cycle: vec![] },
+            _ => make_sched(rng, SchedKind::Random, &input[..input.len().min(1)]),
+        };
+        if input.len() > 100_000 && i % 4 == 3 {
+            case.sched = Sched { cuts: vec![], cycle: vec![rng.range(65_536, 1 << 20) as usize] };
+        }
+        let obs = run_case(&case);
+        rep.evaluations += 1;
+        rep.counters.class(format!("behind no-reply commands: {} statements, sched {}", nst, i % 4));
+        let d = || J::obj().set("commands", kinds_summary(&case.cmds)).set("input_bytes", input.len()).set("sched", case.sched.describe()).set("outcome", obs.outcome.describe());
+        if i == 0 {
+            rep.sample(d());
+        }
+        check(&obs, rep, &d);
+        if obs.outcome != Outcome::Ok && !matches!(obs.outcome, Outcome::Panic { .. }) {
+            rep.violations.push(viol("C12", "C12 pipelined-conversation-not-served".into(), format!("a well-formed pipelined conversation ended with {}", obs.outcome.describe()), d()));
+        }
+    });
+    rep.merge(r);
     rep.merge(super::mega::run(ctx, "C12", 1500, 60000));
     if ctx.strict() {
         rep.require("multi_packet_commands_in_lock_step", 3);
